@@ -8,8 +8,11 @@ def gen_consts(v):
             ('SOURCE_PRIORITY_MIN', 'ola::dmx::SOURCE_PRIORITY_MIN'),
             ('SOURCE_PRIORITY_DEFAULT', 'ola::dmx::SOURCE_PRIORITY_DEFAULT'),
             ('SOURCE_PRIORITY_MAX', 'ola::dmx::SOURCE_PRIORITY_MAX'),
-            ('DMX_UNIVERSE_SIZE', 'ola::DMX_UNIVERSE_SIZE')]
-    return v.gen_consts_cpp(ID, ['olad/DmxSource.h', 'ola/dmx/SourcePriorities.h', 'ola/Constants.h'],
+            ('DMX_UNIVERSE_SIZE', 'ola::DMX_UNIVERSE_SIZE'),
+            ('USEC_IN_SECONDS', 'ola::USEC_IN_SECONDS'),
+            ('TIMEOUT_SEC', 'ola::DmxSource::TIMEOUT_INTERVAL.Seconds()'),
+            ('TIMEOUT_USEC', 'ola::DmxSource::TIMEOUT_INTERVAL.MicroSeconds()')]
+    return v.gen_consts_cpp(ID, ['olad/DmxSource.h', 'ola/dmx/SourcePriorities.h', 'ola/Constants.h', 'ola/Clock.h'],
                             ents, os.path.join(v.VERIF, 'props', ID, 'coq', 'Gen.v'),
                             extra_sources=['olad/plugin_api/DmxSource.cpp', 'common/utils/Clock.cpp'])
 
@@ -154,6 +157,8 @@ def gen_history(rng, nops, big_ok=True):
             ops.append('%s,%d,%d' % (rng.choice(['wr', 'sr']), rng.randrange(8), rng.choice([0, 0, 1])))
         elif r < 0.95:
             ops.append('sd,%s' % hx(gen_frame(rng, big_ok)))
+        elif r < 0.96:
+            ops.append('co,%d,%s,%d,%d' % (anyclient(), hx(gen_frame(rng, big_ok)), pick_prio(), stamp()))
         else:
             i = anyport()
             k = rng.choice(['pp', 'pp', 'pm', 'ph', 'pk'])
@@ -230,6 +235,14 @@ def gen_cases(rng, tier):
         yield gen_history(rng, rng.choice([8, 12, 20]), big_ok=False)
     for k in range(n // 8):
         yield gen_housekeeping(rng)
+    # raw struct timeval liveness (TimerAdd carry, timercmp, timerisset) around the 2.5 s boundary
+    for k in range(n // 10):
+        ts = rng.choice([0, 1, 999999, 1000000, rng.randrange(10 ** 12)])
+        tsec, tusec = ts // 10 ** 6, rng.choice([ts % 10 ** 6, 0, 499999, 500000, 500001, 999999])
+        d = rng.choice([0, 1, 2499999, 2500000, 2500001, 1999999, 2000000, 3000000, rng.randrange(5 * 10 ** 6)])
+        now = tsec * 10 ** 6 + tusec + d - rng.choice([0, 0, 0, 2500000])
+        now = max(0, now)
+        yield 'tv %d %d %d %d' % (now // 10 ** 6, now % 10 ** 6, tsec, tusec)
 
 
 def nontrivial(payload, md):
@@ -247,7 +260,7 @@ RULE = ('random histories (1-40 ops after a random patching prologue) over <=4 i
         '(nolive/dead/lowprio/single/ltpnewest/ltpolder/htp2/htp3+); non-trivial = at least one update whose merge '
         'changed the frame and produced fan-out calls; distinct = distinct model output line')
 ASSUMPTIONS = ['operator new does not fail',
-               'time stamps below 2^62 microseconds (struct timeval arithmetic does not overflow)',
+               'time stamps non-negative, normalised (tv_usec < 10^6) and below 2^62 microseconds (struct timeval arithmetic does not overflow)',
                'sink and source clients are ordered by object address; the harness allocates clients in one '
                'block so that address order is id order']
 TRUSTED = ['modelled rather than verified: Universe.cpp MergeAll/HTPMergeSources/UpdateDependants/PortDataChanged/'
@@ -255,21 +268,20 @@ TRUSTED = ['modelled rather than verified: Universe.cpp MergeAll/HTPMergeSources
            'SetPriority, Client::DMXReceived/SourceData',
            'DmxBuffer through its value semantics only (Set caps at 512 slots, HTPMerge = slot-wise max, longer tail '
            'kept); the copy-on-write implementation is the subject of C02',
-           'TimeStamp arithmetic/comparison as exact arithmetic on microseconds; constants regenerated into Gen.v']
-LEVEL_TEXT = ('Coq theorems, for every world (not only reachable ones), every update call, both merge modes and any '
-              'number and mix of input ports and source clients, over an executable model of Universe::MergeAll/'
-              'HTPMergeSources/UpdateDependants and the port/client update paths: after an update the frame held and '
-              'the WriteDMX/SendDMX calls made are exactly what the property prescribes as a function of the live '
-              'highest-priority group (slot-wise maximum in HTP, updater-unless-a-newer-member in LTP, sole member '
-              'verbatim, nothing for an updater outside the group), fan-out is one call per output port and sink with '
-              'the group priority, sources outside the group cannot influence frame or calls (non-interference), all '
-              'other calls leave the frame alone; reachable worlds keep containers duplicate-free, frames <= 512 slots and (given supplied priorities <= 200) handed-out priorities <= 200. '
-              'The model is tied to the C++ by a differential correspondence check after every operation '
-              '(ASan/UBSan build of the /repo working tree) and the constants 2.5 s/0/100/200/512 are regenerated from the headers. '
-              'Housekeeping (CleanStaleSourceClients) and SetDMX are modelled: a client whose data arrived stays a candidate source across one housekeeping run (c01_housekeeping); '
-              'dependants\' WriteDMX/SendDMX return values are scripted in the cases and proved irrelevant. '
-              'Not covered: m_active_priority is rewritten by merges that report no change (observed, compared as an '
-              'internal key, stated in c01_merge, not part of the property clauses); RDM is not modelled.')
+           'TimeStamp arithmetic: the universe model uses microseconds; Time.v models TimerAdd/timercmp/timerisset/Set(int64) and c01_timeval proves the two agree for normalised non-negative timevals (raw timeval cases are part of the correspondence); constants incl. USEC_IN_SECONDS and the timeval form of TIMEOUT_INTERVAL regenerated into Gen.v',
+           'defaults of a fresh Universe / BasicInputPort (LTP, priority 100, static mode) are compared on every case (key init)']
+LEVEL_TEXT = ('Coq theorems (21, axiom-free) over an executable model of Universe::MergeAll/HTPMergeSources/UpdateDependants/'
+              'SetDMX/CleanStaleSourceClients and the port/client update paths, for every world, every call, both modes and '
+              'any mix of ports and clients: after an update the frame held and the WriteDMX/SendDMX calls are exactly what '
+              'the property prescribes from the live highest-priority group (HTP slot-wise max, LTP updater-unless-newer, '
+              'sole member verbatim, nothing from outside the group; non-interference; dependants\' return values irrelevant), '
+              'and at history level, by induction over arbitrary call sequences from the initial universe, the frame equals '
+              'the change of the last qualifying update, each change is delivered exactly once to every output port and sink '
+              'and to nobody else, a streaming client survives housekeeping, frames stay <= 512 slots and priorities <= 200. '
+              'The model is tied to the C++ by a differential correspondence check after every operation (ASan/UBSan build '
+              'of the /repo working tree; raw struct timeval liveness cases included) with constants regenerated from the headers. '
+              'Not covered: m_active_priority being rewritten by merges that report no change is observed and stated '
+              '(c01_merge) but is not a property clause; RDM is not modelled; model = code is tested, not proved.')
 LEVEL_NOTE = ('Trusted: Coq 8.16.1 kernel (vm_compute only in Examples), extraction (ExtrOcamlBasic), OCaml/C++ glue, '
               'generator coverage of the correspondence; model = code is validated by differential testing, not proved. '
               'DmxBuffer enters through its value semantics (C02), TimeStamp arithmetic as exact microsecond arithmetic; '
